@@ -189,6 +189,20 @@ func newServer(pol string, rec *recorder) *dns.Server {
 	}
 }
 
+// asReceived: a private copy of m in a slice shaped as the server's readers
+// shape it: readTCP allocates exactly the announced length (capacity = length, so
+// an over-read by a decoder is out of range), readUDP hands out the first n octets
+// of a receive buffer of UDPSize octets.
+func asReceived(tr string, m []byte) []byte {
+	if tr == "udp" && len(m) <= 4096 {
+		b := make([]byte, 4096)
+		return b[:copy(b, m)]
+	}
+	b := make([]byte, len(m))
+	copy(b, m)
+	return b
+}
+
 // serveHook runs serveDNS directly (hook). The UDP short-packet test lives in
 // serveUDP, so for len < 12 over UDP the hook path is not applicable.
 func serveHook(tr, pol string, m []byte) (string, *recorder) {
@@ -199,11 +213,11 @@ func serveHook(tr, pol string, m []byte) (string, *recorder) {
 		if tr == "udp" {
 			pc := netfake.NewPacketConn(nil, nil)
 			pc.OnWrite = func(_ net.Addr, b []byte) { rec.write(b, false) }
-			dns.VerifServeDNS(srv, append([]byte(nil), m...), pc, netfake.Addr{N: 1}, nil)
+			dns.VerifServeDNS(srv, asReceived("udp", m), pc, netfake.Addr{N: 1}, nil)
 		} else {
 			c := netfake.NewConn(nil)
 			c.OnWrite = func(b []byte) { rec.write(b, true) }
-			dns.VerifServeDNS(srv, append([]byte(nil), m...), nil, nil, c)
+			dns.VerifServeDNS(srv, asReceived("tcp", m), nil, nil, c)
 		}
 		return ""
 	})
@@ -218,6 +232,9 @@ func serveHook(tr, pol string, m []byte) (string, *recorder) {
 // peer, and returns the event log. ok=false means the test infrastructure
 // timed out (not a property violation).
 func serveLoop(tr, pol string, ms [][]byte, rec *recorder) (ok bool) {
+	if !decoderSafe(tr, pol, ms...) {
+		return false
+	}
 	srv := newServer(pol, rec)
 	done := make(chan error, 1)
 	if tr == "udp" {
@@ -237,6 +254,33 @@ func serveLoop(tr, pol string, ms [][]byte, rec *recorder) (ok bool) {
 		return serveLoopChunks(srv, [][]byte{stream}, rec)
 	}
 	return finishServe(srv, done)
+}
+
+// decoderSafe: the goroutines of the real serve loops cannot be recovered from
+// here, a panic in one of them ends the harness (and loses its output). So every
+// message goes through the decoder on this goroutine first; a panic there is
+// reported with the message and the loops are not run on it.
+var decoderVerdict = map[string]bool{}
+
+func decoderSafe(tr, pol string, ms ...[]byte) bool {
+	all := true
+	for _, m := range ms {
+		safe, known := decoderVerdict[string(m)]
+		if !known {
+			safe = Protect(func() string { new(dns.Msg).Unpack(asReceived("tcp", m)); return "" }) != "panic"
+			if len(decoderVerdict) < 1<<17 {
+				decoderVerdict[string(m)] = safe
+			}
+			if !safe {
+				Viol("C14/Serve/panic", "the message decoder the server runs on every admitted message panicked (message in a buffer of exactly its length, as readTCP allocates it)", serveIn{"tcp", pol, Hx(m), ""})
+			}
+		}
+		if !safe {
+			stat["serve_loop_skipped_decoder_panics"]++
+			all = false
+		}
+	}
+	return all
 }
 
 // serveLoopChunks runs serveTCP -> serveTCPConn -> readTCP on ONE scripted
